@@ -576,7 +576,7 @@ func lowerFirst(s string) string {
 var globalRef = regexp.MustCompile(`\bg[0-9]+\b`)
 
 // checkABI compares manifest, debug information and script (second sentence of the property).
-func checkABI(pr *Prog, nf *nef.File, di *compiler.DebugInfo) error {
+func checkABI(pr *Prog, nf *nef.File, di *compiler.DebugInfo) (exclUnused bool, err error) {
 	script := nf.Script
 	// instruction boundaries
 	starts := map[int]opcode.Opcode{}
@@ -585,14 +585,14 @@ func checkABI(pr *Prog, nf *nef.File, di *compiler.DebugInfo) error {
 	for ctx.NextIP() < len(script) {
 		op, par, err := ctx.Next()
 		if err != nil {
-			return fmt.Errorf("script does not decode: %v", err)
+			return exclUnused, fmt.Errorf("script does not decode: %v", err)
 		}
 		starts[ctx.IP()] = op
 		params[ctx.IP()] = par
 	}
 	m, err := compiler.CreateManifest(di, &compiler.Options{Name: "c14", NoStandardCheck: true, NoEventsCheck: true, NoPermissionsCheck: true})
 	if err != nil {
-		return fmt.Errorf("manifest: %v", err)
+		return exclUnused, fmt.Errorf("manifest: %v", err)
 	}
 	byID := map[string]*compiler.MethodDebugInfo{}
 	type rg struct {
@@ -603,27 +603,33 @@ func checkABI(pr *Prog, nf *nef.File, di *compiler.DebugInfo) error {
 	for i := range di.Methods {
 		dm := &di.Methods[i]
 		if byID[dm.ID] != nil {
-			return fmt.Errorf("debug info lists method %q twice", dm.ID)
+			return exclUnused, fmt.Errorf("debug info lists method %q twice", dm.ID)
 		}
 		byID[dm.ID] = dm
 		s, e := int(dm.Range.Start), int(dm.Range.End)
+		if s == 0 && e == 65535 && vt.Known(kDebugUnused) {
+			// known finding: a function that is not compiled (unused) is listed with the range 0..65535
+			delete(byID, dm.ID)
+			exclUnused = true
+			continue
+		}
 		if _, ok := starts[s]; !ok {
-			return fmt.Errorf("debug info: start %d of method %q is not an instruction boundary", s, dm.ID)
+			return exclUnused, fmt.Errorf("debug info: start %d of method %q is not an instruction boundary", s, dm.ID)
 		}
 		if op, ok := starts[e]; !ok {
-			return fmt.Errorf("debug info: end %d of method %q is not an instruction boundary", e, dm.ID)
+			return exclUnused, fmt.Errorf("debug info: end %d of method %q is not an instruction boundary", e, dm.ID)
 		} else if op != opcode.RET {
-			return fmt.Errorf("debug info: method %q ends at %d with %s, not RET", dm.ID, e, op)
+			return exclUnused, fmt.Errorf("debug info: method %q ends at %d with %s, not RET", dm.ID, e, op)
 		}
 		if e < s {
-			return fmt.Errorf("debug info: method %q has range %d..%d", dm.ID, s, e)
+			return exclUnused, fmt.Errorf("debug info: method %q has range %d..%d", dm.ID, s, e)
 		}
 		ranges = append(ranges, rg{s, e, dm.ID})
 	}
 	sort.Slice(ranges, func(i, j int) bool { return ranges[i].s < ranges[j].s })
 	for i := 1; i < len(ranges); i++ {
 		if ranges[i].s <= ranges[i-1].e {
-			return fmt.Errorf("debug info: ranges of %q (%d..%d) and %q (%d..%d) overlap", ranges[i-1].id, ranges[i-1].s, ranges[i-1].e, ranges[i].id, ranges[i].s, ranges[i].e)
+			return exclUnused, fmt.Errorf("debug info: ranges of %q (%d..%d) and %q (%d..%d) overlap", ranges[i-1].id, ranges[i-1].s, ranges[i-1].e, ranges[i].id, ranges[i].s, ranges[i].e)
 		}
 	}
 	known := map[string]*Func{}
@@ -636,14 +642,14 @@ func checkABI(pr *Prog, nf *nef.File, di *compiler.DebugInfo) error {
 		}
 		f := known[id]
 		if f == nil {
-			return fmt.Errorf("debug info names method %q which the source does not declare", id)
+			return exclUnused, fmt.Errorf("debug info names method %q which the source does not declare", id)
 		}
 		if len(dm.Parameters) != len(f.Params) {
-			return fmt.Errorf("debug info: method %q has %d parameters, source has %d", id, len(dm.Parameters), len(f.Params))
+			return exclUnused, fmt.Errorf("debug info: method %q has %d parameters, source has %d", id, len(dm.Parameters), len(f.Params))
 		}
 		for i := range f.Params {
 			if dm.Parameters[i].Name != f.Params[i].Name {
-				return fmt.Errorf("debug info: parameter %d of %q is named %q, source says %q", i, id, dm.Parameters[i].Name, f.Params[i].Name)
+				return exclUnused, fmt.Errorf("debug info: parameter %d of %q is named %q, source says %q", i, id, dm.Parameters[i].Name, f.Params[i].Name)
 			}
 		}
 		nargs := len(f.Params)
@@ -654,11 +660,11 @@ func checkABI(pr *Prog, nf *nef.File, di *compiler.DebugInfo) error {
 		op := starts[s]
 		switch {
 		case nargs > 0 && op != opcode.INITSLOT:
-			return fmt.Errorf("method %q takes %d arguments but starts with %s at %d, not INITSLOT", id, nargs, op, s)
+			return exclUnused, fmt.Errorf("method %q takes %d arguments but starts with %s at %d, not INITSLOT", id, nargs, op, s)
 		case nargs > 0 && int(params[s][1]) != nargs:
-			return fmt.Errorf("method %q takes %d arguments but INITSLOT at %d reserves %d", id, nargs, s, params[s][1])
+			return exclUnused, fmt.Errorf("method %q takes %d arguments but INITSLOT at %d reserves %d", id, nargs, s, params[s][1])
 		case nargs == 0 && op == opcode.INITSLOT && (params[s][1] != 0 || params[s][0] == 0):
-			return fmt.Errorf("method %q takes no arguments but starts with INITSLOT %d locals %d args", id, params[s][0], params[s][1])
+			return exclUnused, fmt.Errorf("method %q takes no arguments but starts with INITSLOT %d locals %d args", id, params[s][0], params[s][1])
 		}
 	}
 	// manifest <-> source <-> debug info
@@ -667,7 +673,7 @@ func checkABI(pr *Prog, nf *nef.File, di *compiler.DebugInfo) error {
 		if mm.Name == manifest.MethodInit {
 			dm := byID[manifest.MethodInit]
 			if dm == nil || int(dm.Range.Start) != mm.Offset {
-				return fmt.Errorf("manifest lists _initialize at %d, debug info disagrees", mm.Offset)
+				return exclUnused, fmt.Errorf("manifest lists _initialize at %d, debug info disagrees", mm.Offset)
 			}
 			continue
 		}
@@ -678,29 +684,29 @@ func checkABI(pr *Prog, nf *nef.File, di *compiler.DebugInfo) error {
 			}
 		}
 		if f == nil {
-			return fmt.Errorf("manifest lists method %q which is not an exported function of the source", mm.Name)
+			return exclUnused, fmt.Errorf("manifest lists method %q which is not an exported function of the source", mm.Name)
 		}
 		if seen[mm.Name] {
-			return fmt.Errorf("manifest lists method %q twice", mm.Name)
+			return exclUnused, fmt.Errorf("manifest lists method %q twice", mm.Name)
 		}
 		seen[mm.Name] = true
 		if len(mm.Parameters) != len(f.Params) {
-			return fmt.Errorf("manifest: method %q has %d parameters, source has %d", mm.Name, len(mm.Parameters), len(f.Params))
+			return exclUnused, fmt.Errorf("manifest: method %q has %d parameters, source has %d", mm.Name, len(mm.Parameters), len(f.Params))
 		}
 		for i, p := range f.Params {
 			if mm.Parameters[i].Type != scType(p.Type) || mm.Parameters[i].Name != p.Name {
-				return fmt.Errorf("manifest: parameter %d of %q is %s %s, source says %s %s", i, mm.Name, mm.Parameters[i].Name, mm.Parameters[i].Type, p.Name, p.Type)
+				return exclUnused, fmt.Errorf("manifest: parameter %d of %q is %s %s, source says %s %s", i, mm.Name, mm.Parameters[i].Name, mm.Parameters[i].Type, p.Name, p.Type)
 			}
 		}
 		if want := scType(f.Results[0].Type); mm.ReturnType != want {
-			return fmt.Errorf("manifest: method %q returns %s, source says %s", mm.Name, mm.ReturnType, want)
+			return exclUnused, fmt.Errorf("manifest: method %q returns %s, source says %s", mm.Name, mm.ReturnType, want)
 		}
 		dm := byID[f.Name]
 		if dm == nil {
-			return fmt.Errorf("manifest method %q has no debug info entry", mm.Name)
+			return exclUnused, fmt.Errorf("manifest method %q has no debug info entry", mm.Name)
 		}
 		if int(dm.Range.Start) != mm.Offset {
-			return fmt.Errorf("manifest: method %q at offset %d, debug info says %d", mm.Name, mm.Offset, dm.Range.Start)
+			return exclUnused, fmt.Errorf("manifest: method %q at offset %d, debug info says %d", mm.Name, mm.Offset, dm.Range.Start)
 		}
 	}
 	needInit := len(pr.Inits) > 0
@@ -709,7 +715,7 @@ func checkABI(pr *Prog, nf *nef.File, di *compiler.DebugInfo) error {
 		f := &pr.Funcs[i]
 		if f.Recv == nil && unicode.IsUpper(rune(f.Name[0])) {
 			if !seen[lowerFirst(f.Name)] {
-				return fmt.Errorf("exported function %s is missing from the manifest", f.Name)
+				return exclUnused, fmt.Errorf("exported function %s is missing from the manifest", f.Name)
 			}
 			p := &printer{}
 			p.fn(f)
@@ -722,14 +728,14 @@ func checkABI(pr *Prog, nf *nef.File, di *compiler.DebugInfo) error {
 	_, hasInit := byID[manifest.MethodInit]
 	switch {
 	case needInit && !hasInit:
-		return fmt.Errorf("the program has package state used by exported functions (or init functions) but no _initialize method")
+		return exclUnused, fmt.Errorf("the program has package state used by exported functions (or init functions) but no _initialize method")
 	case hasInit && len(pr.Globals) == 0 && len(pr.Inits) == 0 && !usesDefer(pr):
 		// (a defer needs a static slot for the pending exception, which _initialize allocates)
-		return fmt.Errorf("_initialize emitted for a program without package variables, init functions and defers")
+		return exclUnused, fmt.Errorf("_initialize emitted for a program without package variables, init functions and defers")
 	case hasInit && byID[manifest.MethodInit].Range.Start != 0:
-		return fmt.Errorf("_initialize does not start at offset 0")
+		return exclUnused, fmt.Errorf("_initialize does not start at offset 0")
 	}
-	return nil
+	return exclUnused, nil
 }
 
 func usesDefer(pr *Prog) bool {
@@ -809,6 +815,7 @@ func checkCase(c Case, o *vt.Obs) error {
 	type progRes struct {
 		rejected string
 		abiErr   error
+		exclUnused bool
 		res      []vmResult
 	}
 	prs := make([]progRes, len(c.Progs))
@@ -819,7 +826,7 @@ func checkCase(c Case, o *vt.Obs) error {
 			prs[i].rejected = classify(err)
 			continue
 		}
-		prs[i].abiErr = checkABI(pr, nf, di)
+		prs[i].exclUnused, prs[i].abiErr = checkABI(pr, nf, di)
 		offs := map[string]int{}
 		initOff := -1
 		for _, dm := range di.Methods {
@@ -868,6 +875,10 @@ func checkCase(c Case, o *vt.Obs) error {
 			continue
 		}
 		o.Label("prog-compiled")
+		if prs[i].exclUnused {
+			o.Label("excl:" + kDebugUnused)
+			o.Excluded()
+		}
 		if prs[i].abiErr != nil {
 			return where("manifest / debug info / script disagree: %v", prs[i].abiErr)
 		}
